@@ -236,13 +236,15 @@ class Orderer:
 
         for row, children in config.items():
             cmd_direct = not row.startswith(reverse_prefix)
-            (order, direct, rb, _) = self.get_order(row, cmd_direct)
+            (order, direct, rb, order_rule) = self.get_order(row, cmd_direct)
             child_orderer = Orderer(rb, self.vendor)
             children = child_orderer.order_config(children)
             ordered.append({
                 "row": row,
                 "children": children,
-                "direct": direct,
+                # rows that no ordering rule mentions keep their relative order,
+                # whether or not they start with the reverse prefix
+                "direct": direct or not order_rule,
                 "order": order,
             })
 
